@@ -58,6 +58,9 @@ class ClientProxyBuilder(object):
       def _ProxyMethod(self, *args, **kwargs):
         ar = self._dispatcher.DispatchMethodCall(method_name, args, kwargs)
         return ar if asynchronous else ar.get()
+      # functools.wraps copies orig_method.__dict__, including the marker set by
+      # abc.abstractmethod.  The proxy method is the implementation.
+      _ProxyMethod.__isabstractmethod__ = False
       return _ProxyMethod
 
     def is_user_method(m):
